@@ -265,6 +265,27 @@ theorem C05_step_conserves (e : HEnv) (he : e.ok) (t : TD α) (h : t.Inv) (op : 
     · rw [(C20_from_vec c r v).2 hs]
       show (t.data ++ [] ++ v ++ []).Perm (t.data ++ v)
       rw [List.append_nil, List.append_nil]
+  | newArr c r d =>
+    simp only [hstep, hflow]
+    cases TD.new e.cap c r d with
+    | ok t' =>
+      show (t'.data ++ [] ++ t.data ++ []).Perm (t.data ++ t'.data)
+      rw [List.append_nil, List.append_nil]
+      exact List.perm_append_comm
+    | error er =>
+      show (t.data ++ [] ++ [] ++ []).Perm (t.data ++ [])
+      simp
+  | initArr c r x =>
+    simp only [hstep, hflow]
+    cases TD.init e.cap c r x with
+    | ok t' =>
+      show (t'.data ++ [] ++ (t.data ++ (if t'.data.length = 0 then [x] else [])) ++ []).Perm
+        (t.data ++ (t'.data ++ (if t'.data.length = 0 then [x] else [])))
+      rw [List.append_nil, List.append_nil, ← List.append_assoc, ← List.append_assoc]
+      exact List.perm_append_comm.append_right _
+    | error er =>
+      show (t.data ++ [] ++ [x] ++ []).Perm (t.data ++ [x])
+      rw [List.append_nil, List.append_nil]
   | insertRow i it spare =>
     have hp := (C11_insert_row e.m e.cap t h i it spare (Or.inl hop) he).2.2.2
     show ((t.insertRow e.m e.cap i it spare).t.data ++ (t.insertRow e.m e.cap i it spare).rest.filterMap id ++ []
@@ -289,7 +310,7 @@ theorem C05_step_conserves (e : HEnv) (he : e.ok) (t : TD α) (h : t.Inv) (op : 
   | swapDimensions =>
     show (t.data ++ [] ++ [] ++ []).Perm (t.data ++ [])
     simp
-  | capacityCall =>
+  | capacityCall k =>
     show (t.data ++ [] ++ [] ++ []).Perm (t.data ++ [])
     simp
   | takeInto k =>
@@ -371,6 +392,12 @@ theorem C05_step_no_leak (e : HEnv) (he : e.ok) (t : TD α) (h : t.Inv) (op : HO
   | fromVec c r v =>
     simp only [hflow]
     cases TD.fromVec c r v <;> rfl
+  | newArr c r d =>
+    simp only [hflow]
+    cases TD.new e.cap c r d <;> rfl
+  | initArr c r x =>
+    simp only [hflow]
+    cases TD.init e.cap c r x <;> rfl
   | insertRow i it spare =>
     have hit := fl_honest_script it hon
     have hsp : (it.events.filterMap id).length ≤ spare.length := by
@@ -397,7 +424,7 @@ theorem C05_step_no_leak (e : HEnv) (he : e.ok) (t : TD α) (h : t.Inv) (op : HO
   | removeColLeak i w => exact absurd hon id
   | clear => rfl
   | swapDimensions => rfl
-  | capacityCall => rfl
+  | capacityCall k => rfl
   | takeInto k => rfl
   | inplace op => exact (fl_step_inplace e t h op hop).2
   | viaView s e' ops => exact (fl_step_viaView e t h s e' ops hop).2
